@@ -1,3 +1,4 @@
+import Crv.Props.C10Loader
 import Crv.Proofs.Repo
 import Crv.Proofs.Skeleton
 /-!
